@@ -511,6 +511,51 @@ func (c14Engine) Exec(t *testing.T, cc any) *simrt.Result {
 		sim.Drive()
 		sim.Advance(4 * time.Second)
 		dh.db.Close()
+		// ---- 6. shutdown: events the handler acknowledged but still holds in its
+		// partial batch must reach the database when the handler's context ends
+		// (its 3s flush), and survive the reopen
+		ds := fresh("shutdown")
+		if ds == nil {
+			return
+		}
+		sctx, scancel := context.WithCancel(bg)
+		hs, err := mocsqlite.NewSQLiteHandler(sctx, ds.db, &mocsqlite.SQLiteHandlerOption{EventBulkInsertNum: len(distinct) + 5, EventBulkInsertDur: 0, MaxLimit: mocsqlite.NoLimit})
+		if err != nil {
+			sim.Res.Harness = "NewSQLiteHandler: " + err.Error()
+			scancel()
+			return
+		}
+		cs := sim.NewClient(bg, "h1", nil)
+		cs.Serve(hs)
+		for _, e := range batch {
+			cs.Do(simrt.Op{Kind: "send", Msg: &simrt.Msg{T: "EVENT", EvObj: e}})
+		}
+		sim.Drive()
+		acked := 0
+		for _, g := range cs.Got {
+			if okm, is := g.Msg.(*mocrelay.ServerOKMsg); is && okm.Accepted {
+				acked++
+			}
+		}
+		st.Fault("shutdown-with-partial-batch")
+		cs.Cancel()
+		scancel()
+		sim.Drive()
+		sim.Advance(4 * time.Second)
+		ds.db.Close()
+		if acked == len(batch) {
+			if dr := open(ds.dir); dr != nil {
+				q, qerr := c14Ask(dr, probes)
+				dr.db.Close()
+				if qerr != nil {
+					fail("query-error", nil, "after handler shutdown and reopen: %v", qerr)
+				} else if d := c14Diff(Q1, q); d != "" {
+					fail("shutdown-loses-acknowledged-events", nil, "the handler acknowledged %d EVENTs (partial batch), was shut down and the database reopened: answers differ from a successful insertion of those events: %s", acked, d)
+				}
+			} else {
+				return
+			}
+		}
 		h64 := fnv.New64a()
 		fmt.Fprintf(h64, "%d|%s|%d", N, c.Journal, len(c.Pre))
 		st.State(h64.Sum64())
